@@ -779,6 +779,7 @@ class Extractor {
         o["file"] = fileOf(patternOf(FD)->getLocation());
         o["line"] = lineOf(patternOf(FD)->getLocation());
         o["exp_file"] = fileOf(FD->getLocation(), false);
+        o["end_line"] = lineOf(patternOf(FD)->getEndLoc());
         o["invalid"] = FD->isInvalidDecl();
         o["access"] = accessStr(FD->getAccess());
         o["is_instantiation"] = FD->isTemplateInstantiation();
